@@ -82,6 +82,8 @@ def gen_jobs(rng, ntrees, per):
                       "mode": 0o640}
             elif k == "rename":
                 p2 = gen.gen_path(rng, meta) if rng.random() < 0.5 else (rng.choice(meta["dirs"]) + "/moved").lstrip("/")
+                if rng.random() < 0.15:
+                    p2 = p2.rstrip("/") + rng.choice(["/", "//"])      # a destination without a final name
                 op = {"k": "rename", "src": H(p), "dst": H(p2), "flags": rng.choice([0, 0, 1, 2])}
             else:
                 op = {"k": k, "path": H(p)}
@@ -126,6 +128,12 @@ def gen_jobs(rng, ntrees, per):
     for fl in (0, 1, 2):
         for src, dst in (("src/x", "dst/y"), ("src/keep", "dst/kept"), ("src/x", "dst/other"), ("/src/../src/x", "via/y"), ("vs/x", "dst/sub/../x"),
                          ("src/d", "dst/dd"), ("src/d", "dst/newd"), ("dst/sub/x", "src/x")):
+            fixed.append({"k": "rename", "src": H(src), "dst": H(dst), "flags": fl})
+    # the second path is split like the first: a destination (or link target) without a final name names nothing -- whatever the
+    # source is (file, directory), whatever exists under the name before the slash (nothing, a file, an empty directory, a link)
+    for fl in (0, 1, 2):
+        for src, dst in (("src/x", "dst/newname/"), ("src/d", "dst/newdir///"), ("src/d", "dst/dd/"), ("src/x", "dst/other/"), ("src/x", "via/"),
+                         ("src/keep", "dst/sub/"), ("src/x", ""), ("src/d", "/")):
             fixed.append({"k": "rename", "src": H(src), "dst": H(dst), "flags": fl})
     for path, target in (("dst/hl", "src/x"), ("via/hl2", "vs/keep"), ("src/hl3", "dst/sub/x"), ("dst/hl4", "src/../src/x")):
         fixed.append({"k": "create", "path": H(path), "type": "hardlink", "target": H(target)})
@@ -277,6 +285,12 @@ def run(ck):
                 stats["trailing_slash"] += 1
                 if ok or added or removed or changed:
                     ck.violation("C14: a path without a final name (trailing slash / empty) was not refused without effect", desc)
+                continue
+            if op["k"] == "rename" and split(unhex(op["dst"]))[1] is None:
+                # the second path of a two-path operation is split the same way: "new/" names nothing
+                stats["trailing_slash"] += 1
+                if ok or added or removed or changed:
+                    ck.violation("C14: a rename whose DESTINATION has no final name (trailing slash / empty) was not refused without effect", desc)
                 continue
             # where did the kernel resolve the parents?
             orc = {}
